@@ -11,6 +11,7 @@ type ReplayFn = fn(&Cx, &str, &J, &mut Stats) -> CaseResult;
 fn table() -> Vec<(&'static str, RunFn, ReplayFn)> {
     vec![
         ("C01", props::c01::run as RunFn, props::c01::replay as ReplayFn),
+        ("C02", props::c02::run as RunFn, props::c02::replay as ReplayFn),
         ("C05", props::c05::run as RunFn, props::c05::replay as ReplayFn),
         ("C07", props::c07::run as RunFn, props::c07::replay as ReplayFn),
         ("C11", props::c11::run as RunFn, props::c11::replay as ReplayFn),
